@@ -279,6 +279,7 @@ public:
         {
             refDecl(me->getMemberDecl());
             if (me->isArrow()) os << ",\"arrow\":1";
+            if (me->hasQualifier()) os << ",\"qual\":1";      // Base::f(): a qualified member call is never dispatched virtually
         }
         else if (auto *ce = dyn_cast<CallExpr>(s))
         {
